@@ -21,7 +21,8 @@ type c07Case struct {
 
 var c07Kinds = []string{"caller-error", "duplicate", "empty-value", "missing-fk-target", "unusable-key-empty", "unusable-key-too-large",
 	"veto-create", "veto-update", "veto-delete", "veto-parent-on-child-create", "veto-child-update", "veto-cascaded-delete", "pre-commit-action-error",
-	"pre-commit-action-error-then-ok-action", "unusable-key-in-patch", "veto-update-in-patch"}
+	"pre-commit-action-error-then-ok-action", "unusable-key-in-patch", "veto-update-in-patch",
+	"pre-commit-action-error-via-derived-system-ctx", "unusable-key-via-child-store", "unusable-key-update-via-child-store"}
 
 var c07Entries = []string{"update", "nested-update", "batch"}
 
@@ -111,8 +112,24 @@ func failingVariant(kind string, m *kit.Model) (c07Variant, bool) {
 		return &kit.EntSpec{Name: e.Name, Alias: e.Alias, Roles: e.Roles, Note: e.Note + "!", Ref: e.Ref, TagV: e.TagV}
 	}
 	switch kind {
-	case "caller-error", "pre-commit-action-error", "pre-commit-action-error-then-ok-action":
+	case "caller-error", "pre-commit-action-error", "pre-commit-action-error-then-ok-action", "pre-commit-action-error-via-derived-system-ctx":
 		return v, true
+	case "unusable-key-via-child-store":
+		// a parent-level field that cannot be stored, written through the child store
+		v.failing = &kit.Op{Kind: "create", Store: "kids", ID: fresh("things"), Spec: &kit.EntSpec{Name: "fresh-name", Roles: []string{"r1", strings.Repeat("y", 33000)}, Extra: "ex"}}
+	case "unusable-key-update-via-child-store":
+		for _, id := range c06IDs["things"] {
+			if e, ok := m.Ents["things"][id]; ok {
+				if _, isKid := e.Kid["kids"]; isKid {
+					sp := specOf(e)
+					sp.Extra = e.Kid["kids"]
+					sp.Roles = append(append([]string{}, e.Roles...), strings.Repeat("y", 33000))
+					v.failing = &kit.Op{Kind: "update", Store: "kids", ID: id, Spec: sp}
+					return v, true
+				}
+			}
+		}
+		return v, false
 	case "unusable-key-in-patch":
 		// a field-restricted update whose first selected field cannot be stored, followed by selected fields that can
 		id, e := anyOf("things")
@@ -273,6 +290,11 @@ func runC07(c c07Case) kit.Result {
 					upto := pos
 					preCommit := strings.HasPrefix(kind, "pre-commit-action-error")
 					addFailingAction := func() {
+						if kind == "pre-commit-action-error-via-derived-system-ctx" {
+							// registered through a system context derived inside the transaction body
+							ctx.GetSystemContext().AddPreCommitAction(func(boltz.MutateContext) error { return errInjected })
+							return
+						}
 						ctx.AddPreCommitAction(func(boltz.MutateContext) error { return errInjected })
 						if kind == "pre-commit-action-error-then-ok-action" {
 							// a later action that succeeds must not mask the earlier failure
